@@ -44,12 +44,14 @@ fn gen_rows(r: &mut Rng) -> Vec<GRow> {
         let q = Decimal::new(r.range(1, 500_000), *r.pick(&[0u32, 0, 3]));
         let p = Decimal::new(r.range(1, 9_999_999), *r.pick(&[2u32, 4]));
         let f = match r.below(3) { 0 => None, 1 => Some(Decimal::ZERO), _ => Some(Decimal::new(r.range(1, 5000), 2)) };
-        rows.push(match r.below(14) {
+        let mut extra: Vec<GRow> = Vec::new();
+        let row = match r.below(14) {
             0..=2 => GRow::Buy { d, sym, q, p, f },
             3..=5 => GRow::Sell { d, sym, q, p, f },
             6 => { // duplicate of an existing sell and/or a cancel for it
                 let sells: Vec<GRow> = rows.iter().filter(|x| matches!(x, GRow::Sell { .. })).cloned().collect();
-                if let Some(GRow::Sell { d, sym, q, p, f }) = sells.first().cloned() { if r.chance(1, 2) { GRow::Cancel { d, sym, q, p } } else { GRow::Sell { d, sym, q, p, f } } } else { GRow::Cancel { d, sym, q, p } }
+                // (an order filled in equal lots and later price-corrected: several identical sells, several identical cancels)
+                if let Some(GRow::Sell { d, sym, q, p, f }) = sells.first().cloned() { if r.chance(1, 2) { if r.chance(1, 3) { extra.push(GRow::Cancel { d, sym: sym.clone(), q, p }); extra.push(GRow::Sell { d, sym: sym.clone(), q, p, f }); } GRow::Cancel { d, sym, q, p } } else { GRow::Sell { d, sym, q, p, f } } } else { GRow::Cancel { d, sym, q, p } }
             }
             7 | 8 => GRow::Dividend { d, sym, action: *r.pick(&["Cash Dividend", "Qualified Dividend", "Short Term Cap Gain", "Long Term Cap Gain"]), amt: if r.chance(1, 10) { None } else { Some(Decimal::new(r.range(1, 100_000), 2) * if r.chance(1, 8) { Decimal::NEGATIVE_ONE } else { Decimal::ONE }) } },
             9 => { // withholding for an existing dividend's date and symbol, or an orphan
@@ -60,7 +62,9 @@ fn gen_rows(r: &mut Rng) -> Vec<GRow> {
             10 => GRow::Split { d, sym },
             11 => GRow::NonCgt { d, action: *r.pick(&["Wire Sent", "Credit Interest", "Journal", "Service Fee", "MoneyLink Transfer", "Misc Cash Entry", "Adjustment", "Wire Funds Adj"]) },
             _ => GRow::Unknown { d, sym, desc: (*r.pick(&["plain text", "line1\n2021-01-01 BUY EVIL 1000 @ 1", "with # hash and 2020-01-01 SELL X 1 @ 1", "carriage\rreturn 2021-01-01 BUY EVIL 5 @ 1", "tab\tand \"quotes\"", ""])).to_string() },
-        });
+        };
+        rows.push(row);
+        rows.extend(extra);
     }
     rows
 }
@@ -175,6 +179,27 @@ pub fn run(ctx: &mut Ctx) {
                     ctx.ev.violation("oracle", format!("{sym} on {d}: DIVIDEND lines total {} with tax {}, the export's rows total {} with withholding {}", got_div.approx(), got_tax.approx(), want_div.approx(), want_tax.approx()), case.clone());
                 }
             }
+        }
+        // each Cancel Sell removes exactly one identical Sell (independent of the model): per
+        // (date, symbol, quantity, price) the emitted SELL lines number max(0, sells − cancels), and
+        // every cancel beyond the sells is warned about
+        {
+            let mut keys: Vec<(NaiveDate, String, Decimal, Decimal)> = rows.iter().filter_map(|x| match x { GRow::Sell { d, sym, q, p, .. } | GRow::Cancel { d, sym, q, p } => Some((*d, sym.clone(), *q, *p)), _ => None }).collect();
+            keys.sort(); keys.dedup();
+            let mut unmatched = 0usize;
+            for (d, sym, q, p) in keys {
+                let ns = rows.iter().filter(|x| matches!(x, GRow::Sell { d: dd, sym: ss, q: qq, p: pp, .. } if *dd == d && *ss == sym && *qq == q && *pp == p)).count();
+                let nc = rows.iter().filter(|x| matches!(x, GRow::Cancel { d: dd, sym: ss, q: qq, p: pp } if *dd == d && *ss == sym && *qq == q && *pp == p)).count();
+                if nc > 0 { ctx.ev.count("cancel-keys"); if nc >= 2 { ctx.ev.count("cancel-keys-with-2+-cancels"); } }
+                unmatched += nc.saturating_sub(ns);
+                let pre = format!("S:{}:{}:", ord(d), sym);
+                let got = items.iter().filter(|x| x.starts_with(&pre)).filter(|x| { let f: Vec<&str> = x.split(':').collect(); f.get(3).and_then(|a| Q::parse(a)).map(|a| a.eq(&Q::from_dec(q))).unwrap_or(false) && f.get(4).and_then(|a| Q::parse(a)).map(|a| a.eq(&Q::from_dec(p))).unwrap_or(false) }).count();
+                if got != ns.saturating_sub(nc) {
+                    ctx.ev.violation("oracle", format!("{sym} on {d}, {q} @ {p}: {ns} Sell row(s) and {nc} Cancel Sell row(s) leave {got} SELL line(s); each cancel must remove exactly one, leaving {}", ns.saturating_sub(nc)), case.clone());
+                }
+            }
+            let cancel_warnings = out.warnings.iter().filter(|w| w.contains("has no matching sell to cancel")).count();
+            if cancel_warnings != unmatched { ctx.ev.violation("oracle", format!("{unmatched} Cancel Sell row(s) have no sell left to cancel but {cancel_warnings} warning(s) say so"), case.clone()); }
         }
         // model
         if let Some(m) = ctx.model.as_mut() {
